@@ -334,6 +334,12 @@ class Stop(Exception):
     pass
 
 
+def does_not_fit(e):
+    """armi's documented refusals when the components of a block do not fit any more (Component._checkNegativeArea,
+    DerivedShape._deriveVolumeAndArea, Block height checks): a precondition of the harness' operations, not a C16 matter."""
+    return isinstance(e, ArithmeticError) or (isinstance(e, ValueError) and "Negative area/volume" in str(e))
+
+
 class BodyError(Exception):
     """Raised by the harness inside a scope body at a generated point; ``levels`` = enclosing scopes it still passes through."""
 
@@ -400,6 +406,7 @@ class Interp:
 
     # ---- helpers -----------------------------------------------------------------------------
     _defcache = {}
+    _asbuilt = {}  # (serial number, dimension) -> as-built value; cleared per case by the execute functions
 
     def defs_of(self, o):
         """(ids of the definitions, names) of the parameter collection class of ``o``."""
@@ -523,7 +530,19 @@ class Interp:
     # ---- operations ---------------------------------------------------------------------------
     def apply(self, op):
         kind = self.enabled[op["k"] % len(self.enabled)]
-        getattr(self, "op_" + kind)(op, self.base(op["up"]))
+        try:
+            getattr(self, "op_" + kind)(op, self.base(op["up"]))
+        except (ArithmeticError, ValueError) as e:
+            if not does_not_fit(e):
+                raise
+            # skipped and counted; whatever the operation did before armi refused stays (a scope has to undo that too)
+            self.counts["does-not-fit:" + kind] += 1
+
+    def scaled(self, c, d, factor):
+        """New value of a plain dimension: ``factor`` times its AS-BUILT value (first value seen in this case), so that repeated
+        changes stay within a few percent of the blueprint and the components keep fitting."""
+        ref = Interp._asbuilt.setdefault((c.p.serialNum, d), c.p[d])
+        return ref * factor
 
     def op_param(self, op, base, unset=False):
         i = self.pick(op["level"], op["obj"], base, pred=None)
@@ -780,7 +799,8 @@ class Interp:
         if not dims:
             return
         d = dims[op["obj2"] % len(dims)]
-        c.setDimension(d, c.p[d] * (1.0 - 0.01 * (1 + op["n"] % 3)))
+        outer = d in ("op", "widthOuter", "lengthOuter")  # (the outermost shells are only 3 % thick)
+        c.setDimension(d, self.scaled(c, d, 1.0 - (0.004 if outer else 0.01) * (1 + op["n"] % 3)))
         self.touched.add(i)
         self.counts["dim"] += 1
         self.check_links(c, d)
@@ -814,7 +834,7 @@ class Interp:
         if not cands:
             return None
         c, d = cands[k % len(cands)]
-        c.setDimension(d, c.p[d] * 0.985)
+        c.setDimension(d, self.scaled(c, d, 0.9875 if c.p[d] != self.scaled(c, d, 0.9875) else 0.992))
         self.counts["dimension-changed-right-before-scope"] += 1
         return i
 
@@ -832,8 +852,10 @@ class Interp:
                 served = (float(d.getVolume()), float(d.getArea()))
                 b.derivedMustUpdate = True
                 fresh = (float(d.getVolume()), float(d.getArea()))
-            except (ValueError, ArithmeticError):  # the block's components do not fit any more (its own documented refusal)
-                self.counts["derived-not-computable"] += 1
+            except (ValueError, ArithmeticError) as e:  # the block's components do not fit any more (documented refusal)
+                if not does_not_fit(e):
+                    raise
+                self.counts["does-not-fit:derived-check"] += 1
                 continue
             self.counts["derived-checked"] += 1
             if any(abs(x - y) > 1e-10 * max(abs(x), abs(y)) for x, y in zip(served, fresh)):
@@ -868,8 +890,10 @@ class Interp:
                 try:
                     self.derived_of(i).getVolume()
                     self.counts["cache:derived-volume"] += 1
-                except (ValueError, ArithmeticError):
-                    self.counts["derived-not-computable"] += 1
+                except (ValueError, ArithmeticError) as e:
+                    if not does_not_fit(e):
+                        raise
+                    self.counts["does-not-fit:derived-read"] += 1
                 return
         if how in (0, 1):
             i = self.pick("block", op["obj"], base, pred=lambda b: b.parent is not None)
@@ -1069,8 +1093,13 @@ class Interp:
         ctx.__enter__()
         self.frames.append(frame)
         if pending is not None:
-            self.derived_of(pending).getVolume()
-            self.counts["derived-read-in-scope-while-pending"] += 1
+            try:
+                self.derived_of(pending).getVolume()
+                self.counts["derived-read-in-scope-while-pending"] += 1
+            except (ArithmeticError, ValueError) as e:
+                if not does_not_fit(e):
+                    raise
+                self.counts["does-not-fit:derived-read"] += 1
         err = None
         try:
             raise_at = None if item.get("raise") is None else item["raise"] % (len(item["body"]) + 1)
@@ -1172,6 +1201,7 @@ class Interp:
 
 
 def retain_execute(case):
+    Interp._asbuilt.clear()
     out = Out()
     cs, bp, r = rg.build(case["spec"])
     it = Interp(r, out, case["enabled"], case)
@@ -1241,10 +1271,10 @@ def _check_reactor_copy(r2, how, out):
         out.label("reactor-copy-with-pool-contents:" + how)
         before = [a.p.chargeTime for a in pool]
         with r2.retainState():
-            for a in pool:
-                a.p.chargeTime = a.p.chargeTime + 17.0
+            for k, a in enumerate(pool):
+                a.p.chargeTime = 1234.5 + k  # a definite value (the current one may be NaN)
         after = [a.p.chargeTime for a in pool]
-        if before != after:
+        if not all(x == y or (x != x and y != y) for x, y in zip(before, after)):
             out.fail("copies/reactor-copy-scope-misses-pool-contents", "%s of a reactor: chargeTime of the pool assemblies %r -> %r after a scope on the copy" % (how, before, after))
 
 
@@ -1268,6 +1298,7 @@ def _load(db, cs, bp, trees, kinds, seen, out, enabled, case, do_step):
 
 
 def copies_execute(case):
+    Interp._asbuilt.clear()
     import copy
     import pickle
 
@@ -1498,6 +1529,7 @@ def _different(cur, variant):
 
 
 def readonly_execute(case):
+    Interp._asbuilt.clear()
     from armi.reactor import reactorParameters
     from armi.reactor.parameters import NoDefault
     from armi.reactor.parameters.exceptions import ParameterError
